@@ -268,7 +268,7 @@ Print Assumptions compute_core_exact.
     a genuine interleaving of heap operations and peel accepts it. *)
 Example c11_nonvacuous_core_l0 :
   let g := [[1; 2]; [0; 2]; [0; 1; 3]; [2; 4]; [3]] in
-  core_pop_sequence g = [4; 0; 1; 3; 2] /\
+  core_pop_sequence g = [4; 3; 0; 1; 2] /\
   peel g (core_pop_sequence g) = Some [2; 2; 2; 1; 1] /\
   compute_core g = Some (map Z.of_nat [2; 2; 2; 1; 1]).
 Proof. cbv zeta. repeat split; reflexivity. Qed.
